@@ -26,6 +26,10 @@ pub fn generate(r: &mut Rng, tier: &str, emit: &mut dyn FnMut(String)) {
             emit(gen_dropped_receiver(r));
             continue;
         }
+        if i % 10 == 6 {
+            emit(gen_cache_only_daemon(r));
+            continue;
+        }
         if i % 3 == 0 {
             // silent network: the scheduler model predicts these exactly
             let s = crate::c19::gen_silent(r).replacen("sim C19", "sim C13", 1);
@@ -129,6 +133,60 @@ pub fn gen_half_known(r: &mut Rng) -> String {
         _ => {}
     }
     now += 4000;
+    cmds.push(format!("run {}", now));
+    format!("sim C13 {}", cmds.join(" ; "))
+}
+
+/// A daemon that only browses cache-only (no browse, no hostname search, no verify): record
+/// sets that arrive unsolicited in pieces - only the PTR, PTR + SRV without address, everything -
+/// with short and long TTLs, and seconds of silence in which follow-ups, refresh marks and
+/// expiries fall: the daemon must not send a single query ("a cache-only browse never sends a
+/// query").  One daemon, injected packets: inside the client model's fragment.
+pub fn gen_cache_only_daemon(r: &mut Rng) -> String {
+    let mut cmds: Vec<String> = vec![format!("daemon {}", ifaces_of(0, false))];
+    cmds.push("ipint 0 100000".to_string());
+    let mut now = 1_000_000u64;
+    cmds.push(format!("run {}", now));
+    let inst = gen_inst(r, 0);
+    let short = r.chance(1, 2);
+    let t = if short { Ttls { ptr: 10, srv: 10, txt: 10, addr: 10 } } else { Ttls { ptr: 4500, srv: 120, txt: 4500, addr: 120 } };
+    let recs = recs_of(&inst, &t, true);
+    if r.chance(1, 3) {
+        cmds.push("accept 0 1".to_string());
+    }
+    let early = r.chance(1, 3);
+    if early {
+        // cached before the search starts (needs accept_unsolicited, or is dropped): the replay
+        cmds.push(format!("inject 0 2 1 192.168.1.50 5353 {}", response(&recs[..1], &[])));
+        now += *r.pick(&[0u64, 100, 700]);
+        cmds.push(format!("run {}", now));
+    }
+    cmds.push(format!("browsec 0 1 {}", hx(&inst.ty)));
+    now += *r.pick(&[0u64, 100, 400]);
+    cmds.push(format!("run {}", now));
+    // the pieces: what arrives first is not resolvable
+    let first = match r.below(3) {
+        0 => 1, // PTR only
+        1 => 2, // PTR + SRV, no address
+        _ => 3, // PTR + SRV + TXT, no address
+    };
+    cmds.push(format!("inject 0 2 1 192.168.1.50 5353 {}", response(&recs[..first], &[])));
+    // long enough for three follow-ups 500 ms apart
+    now += *r.pick(&[1_700u64, 2_500, 6_000]);
+    cmds.push(format!("run {}", now));
+    if r.chance(1, 4) {
+        cmds.push(format!("stopbrowse 0 {}", hx(&inst.ty)));
+        now += 300;
+        cmds.push(format!("run {}", now));
+        cmds.push(format!("browsec 0 2 {}", hx(&inst.ty)));
+        cmds.push(format!("run {}", now));
+        cmds.push(format!("inject 0 2 1 192.168.1.50 5353 {}", response(&recs[..first], &[])));
+    }
+    if r.chance(2, 3) {
+        cmds.push(format!("inject 0 2 1 192.168.1.50 5353 {}", response(&recs[first..], &[])));
+    }
+    // refresh marks (80-95 %) and the expiry of the short TTLs, or just a tail
+    now += if short { *r.pick(&[9_000u64, 13_000]) } else { *r.pick(&[4_000u64, 110_000]) };
     cmds.push(format!("run {}", now));
     format!("sim C13 {}", cmds.join(" ; "))
 }
